@@ -29,7 +29,7 @@ func (r *Run) cleanOK(op mfs.Op) bool {
 	case mfs.OpRemove, mfs.OpRemoveAll:
 		n := r.Model.Get(p1)
 		// only files that exist in the buffer alone (never committed, not in the remote)
-		return n != nil && !n.Dir && nodeAt(r.RM, p1) == nil
+		return !r.NoRemoves && n != nil && !n.Dir && nodeAt(r.RM, p1) == nil
 	case mfs.OpCopy, mfs.OpCopyFile, mfs.OpCopyDir:
 		p2, ok2 := r.Model.Resolve(op.View, op.P2)
 		if !ok2 {
@@ -68,6 +68,10 @@ func Drive(run *Run, rng *rand.Rand, nops int, clean bool, views bool) *Divergen
 		var st Step
 		if rng.Intn(12) == 0 {
 			st = Step{Commit: true}
+			if run.Faults != nil && rng.Intn(2) == 0 {
+				run.Faults.Fired = ""
+				run.Faults.Arm(run.Faults.Count() + 1 + int64(rng.Intn(8)))
+			}
 		} else {
 			found := false
 			for try := 0; try < 40 && !found; try++ {
@@ -81,7 +85,11 @@ func Drive(run *Run, rng *rand.Rand, nops int, clean bool, views bool) *Divergen
 				st = Step{Op: mfs.Op{Kind: mfs.OpIsExist, P1: "a"}}
 			}
 		}
-		if d, stop := run.Do(st); d != nil || stop {
+		d, stop := run.Do(st)
+		if run.Faults != nil {
+			run.Faults.Arm(0)
+		}
+		if d != nil || stop {
 			return d
 		}
 	}
